@@ -1132,7 +1132,20 @@ func AfterEdge(e IfEdge) (Point, Env) {
 func PhiEdgeReaches(phi *ssa.Phi, k int, target func(ssa.Instruction) bool) bool {
 	pred := phi.Block().Preds[k]
 	env := enterBlock(pred, phi.Block(), factsAt(pred))
-	return (&Walk{Target: target}).From(Point{B: phi.Block(), I: 0}, env) != nil
+	// start behind the Phis of the block and stop when the block is entered again (in a loop the Phi is then redefined:
+	// a target reached in a later iteration is not reached with this operand)
+	first := 0
+	for first < len(phi.Block().Instrs) {
+		if _, isPhi := phi.Block().Instrs[first].(*ssa.Phi); !isPhi {
+			break
+		}
+		first++
+	}
+	reentry := func(i ssa.Instruction) bool {
+		p, isPhi := i.(*ssa.Phi)
+		return isPhi && p.Block() == phi.Block()
+	}
+	return (&Walk{Target: target, Stop: reentry}).From(Point{B: phi.Block(), I: first}, env) != nil
 }
 
 func isLoopHeader(b *ssa.BasicBlock) bool {
